@@ -6,12 +6,20 @@ package c03
 //
 // Histories over the real Teamserver + sqlite + HTTP listener engine (agx.World),
 // compared with a model map[id] -> (key, iv, metadata) after every step.
+//
+// A third of the histories have a second kind of session owner next to the Demons: a live
+// service client (tpx, real service websocket) that registered third-party agent types and
+// announces third-party sessions under ids of the same pool.  The model then maps an id to
+// EITHER a Demon session OR a third-party session; whoever held the id first keeps it, with
+// exactly what he reported.  An operator on a real websocket (tpx.Tap) receives the
+// broadcasts: NewSession events must match the sessions created, one for one.
 
 import (
 	"bytes"
 	"encoding/binary"
 	"fmt"
 	"sort"
+	"strconv"
 	"strings"
 	"testing"
 
@@ -22,6 +30,7 @@ import (
 	"verifharness/internal/agx"
 	"verifharness/internal/core"
 	"verifharness/internal/demonref"
+	"verifharness/internal/tpx"
 )
 
 type MetaC struct {
@@ -45,12 +54,29 @@ type OpC struct {
 	InnerOwn bool   `json:"inner_own,omitempty"` // cbcheckin: inner id == sender
 	NewKey   bool   `json:"new_key,omitempty"`
 	V6       bool   `json:"v6,omitempty"`
+	TPType   int    `json:"tp_type,omitempty"` // tpreg tpreq: which registered third-party agent type (mod their number)
+}
+
+// SvcC: the teamserver has a Service block and a live service client (tpx) registered these
+// third-party agent types (magic numbers, canonical spelling) before the history starts.
+type SvcC struct {
+	Types []uint32 `json:"types"`
 }
 
 type CaseC struct {
 	IDs []uint32 `json:"ids"` // universe of agent ids
+	Svc *SvcC    `json:"svc,omitempty"`
 	Ops []OpC    `json:"ops"`
 }
+
+var tpMagics = []uint32{0xcafebabe, 0x0badf00d, 0x41414141, 0x12345678, 0x000000a1, 0xfffffffe}
+
+var (
+	kindsC    = []string{"reg", "reg", "reg", "rereg", "rereg", "checkin", "cbcheckin", "cbcheckin", "reg0", "truncreg", "smbreg", "smbreg-mismatch", "markdead", "exitcb", "markalive"}
+	// with a service: the third-party operations, and more of the Demon operations that need TWO other parties (a Demon
+	// parent / sender plus the id of a third-party session), which are thin otherwise
+	kindsCSvc = append(append([]string{}, kindsC...), "tpreg", "tpreq", "tpreq", "smbreg", "smbreg", "smbreg-mismatch", "cbcheckin")
+)
 
 func genMetaText(t *rapid.T, l string) string {
 	s := rapid.OneOf(
@@ -86,15 +112,36 @@ func genC(t *rapid.T) CaseC {
 			c.IDs = append(c.IDs, id)
 		}
 	}
+	kinds := kindsC
+	if rapid.IntRange(0, 2).Draw(t, "svc") == 0 {
+		// a third of the histories: Service block, live service client, 1-2 registered third-party agent types and
+		// 0-2 third-party sessions announced by the service before the first Demon operation - under ids of the SAME pool
+		kinds = kindsCSvc
+		c.Svc = &SvcC{}
+		nt := rapid.IntRange(1, 2).Draw(t, "ntypes")
+		for len(c.Svc.Types) < nt {
+			m := rapid.SampledFrom(tpMagics).Draw(t, "magic")
+			if len(c.Svc.Types) == 0 || c.Svc.Types[0] != m {
+				c.Svc.Types = append(c.Svc.Types, m)
+			}
+		}
+		first := rapid.IntRange(0, n-1).Draw(t, "tpslot")
+		for i, ns := 0, rapid.IntRange(0, 2).Draw(t, "ntpsessions"); i < ns; i++ {
+			c.Ops = append(c.Ops, OpC{Kind: "tpreg", Slot: (first + i) % n, TPType: rapid.IntRange(0, nt-1).Draw(t, "tptype"), Meta: genMetaC(t, fmt.Sprintf("tp%d_", i))})
+		}
+	}
 	k := rapid.IntRange(1, 14).Draw(t, "nops")
 	for i := 0; i < k; i++ {
 		l := fmt.Sprintf("op%d_", i)
 		op := OpC{
-			Kind: rapid.SampledFrom([]string{"reg", "reg", "reg", "rereg", "rereg", "checkin", "cbcheckin", "cbcheckin", "reg0", "truncreg", "smbreg", "smbreg-mismatch", "markdead", "exitcb", "markalive"}).Draw(t, l+"kind"),
+			Kind: rapid.SampledFrom(kinds).Draw(t, l+"kind"),
 			Slot: rapid.IntRange(0, n-1).Draw(t, l+"slot"), Other: rapid.IntRange(0, n-1).Draw(t, l+"other"),
 			Meta: genMetaC(t, l), KeySeed: rapid.Byte().Draw(t, l+"ks"), ZeroKey: rapid.IntRange(0, 6).Draw(t, l+"zk") == 0,
 			Cut: rapid.IntRange(0, 400).Draw(t, l+"cut"), InnerOwn: rapid.Bool().Draw(t, l+"own"), NewKey: rapid.IntRange(0, 3).Draw(t, l+"nk") == 0,
 			V6: rapid.IntRange(0, 4).Draw(t, l+"v6") == 0,
+		}
+		if c.Svc != nil {
+			op.TPType = rapid.IntRange(0, len(c.Svc.Types)-1).Draw(t, l+"tptype")
 		}
 		c.Ops = append(c.Ops, op)
 	}
@@ -143,15 +190,81 @@ type modelC struct {
 	meta    MetaC
 	ext     string
 	haveExt bool
+	tp      bool   // a third-party session: announced by the service (AgentRegister), no Demon key
+	magic   uint32 // tp: the magic number of its agent type
+}
+
+// tpInfo is the RegisterInfo a service reports for a third-party agent with metadata m
+// (the keys agent.RegisterInfoToInstance reads; numbers travel as decimal strings).
+func tpInfo(m MetaC) map[string]any {
+	return map[string]any{"Hostname": m.Host, "Username": m.User, "Domain": m.Domain, "InternalIP": m.IP,
+		"Process Path": m.Path, "Process Name": m.Path[strings.LastIndex(m.Path, "\\")+1:], "Process Arch": "x64",
+		"Process ID": strconv.FormatUint(uint64(m.PID), 10), "Process Parent ID": strconv.FormatUint(uint64(m.PPID), 10), "Process Elevated": strconv.FormatUint(uint64(m.Elev&1), 10),
+		"OS Version": fmt.Sprintf("%d.%d.%d.%d.%d", m.OS[0], m.OS[1], m.OS[2], m.OS[3], m.OS[4]), "OS Build": strconv.FormatUint(uint64(m.OS[4]), 10), "OS Arch": "x64",
+		"SleepDelay": strconv.FormatUint(uint64(m.Sleep), 10)}
+}
+
+// tpTypes: the distinct third-party magic numbers of the case (never the Demon's).
+func (c CaseC) tpTypes() []uint32 {
+	var out []uint32
+	if c.Svc == nil {
+		return nil
+	}
+	for _, m := range c.Svc.Types {
+		dup := m == demonref.Magic
+		for _, o := range out {
+			dup = dup || o == m
+		}
+		if !dup {
+			out = append(out, m)
+		}
+	}
+	return out
 }
 
 func checkC(c CaseC) *core.Violation {
-	w, err := agx.NewWorld(nil)
-	if err != nil {
-		panic("infrastructure: " + err.Error())
+	var (
+		w     *agx.World
+		sc    *tpx.Client
+		types = c.tpTypes()
+	)
+	if len(types) > 0 {
+		// Service block + live service client that registered the third-party agent types
+		tw, err := tpx.NewWorld()
+		if err != nil {
+			panic("infrastructure: " + err.Error())
+		}
+		defer tw.Close()
+		w = tw.World
+		if sc, err = tw.Connect(); err != nil {
+			panic("infrastructure: service script: " + err.Error())
+		}
+		defer sc.Leave(true)
+		for i, m := range types {
+			sc.RegisterType(fmt.Sprintf("tp%d", i), m)
+		}
+		if err := sc.Barrier(); err != nil {
+			panic("infrastructure: service script: " + err.Error())
+		}
+		if got := len(w.TS.Service.Agents); got != len(types) {
+			panic(fmt.Sprintf("infrastructure: %d agent types registered, sent %d", got, len(types)))
+		}
+	} else {
+		var err error
+		if w, err = agx.NewWorld(nil); err != nil {
+			panic("infrastructure: " + err.Error())
+		}
+		defer w.Close()
 	}
-	defer w.Close()
+	// one operator on a real websocket: NewSession events are broadcast, not retained
+	tap, err := tpx.NewTap(w.TS)
+	if err != nil {
+		panic("infrastructure: operator tap: " + err.Error())
+	}
+	defer tap.Close()
 	model := map[uint32]*modelC{}
+	var told []string    // ids of the NewSession events the operator received so far
+	var created []string // ids of the sessions created so far, in order: what operators must have been told (NewSession)
 
 	invariant := func(step int, kind string) *core.Violation {
 		// ids in the table are exactly the model's, pairwise distinct
@@ -183,6 +296,24 @@ func checkC(c CaseC) *core.Violation {
 			if a == nil {
 				return core.V("identity|lookup|after-"+kind, "step %d: session %08x cannot be looked up by id", step, id)
 			}
+			if m.tp {
+				// a third-party session holds what its service reported; it has no Demon key, whoever sent a DEMON_INIT under its id
+				if len(a.Encryption.AESKey) != 0 || len(a.Encryption.AESIv) != 0 {
+					return core.V("record|key-iv|third-party-session|after-"+kind, "step %d (%s): third-party session %08x holds key/iv %x/%x, its service reported none", step, kind, id, a.Encryption.AESKey, a.Encryption.AESIv)
+				}
+				i, mm := a.Info, m.meta
+				exe := mm.Path[strings.LastIndex(mm.Path, "\\")+1:]
+				for _, p := range []struct {
+					n        string
+					got, exp interface{}
+				}{{"MagicValue", i.MagicValue, int(m.magic)}, {"Hostname", i.Hostname, mm.Host}, {"Username", i.Username, mm.User}, {"DomainName", i.DomainName, mm.Domain}, {"InternalIP", i.InternalIP, mm.IP},
+					{"ProcessPath", i.ProcessPath, mm.Path}, {"ProcessName", i.ProcessName, exe}, {"ProcessPID", i.ProcessPID, int(mm.PID)}, {"ProcessPPID", i.ProcessPPID, int(mm.PPID)}, {"SleepDelay", i.SleepDelay, int(mm.Sleep)}} {
+					if p.got != p.exp {
+						return core.V("record|metadata|third-party-session|"+p.n+"|after-"+kind, "step %d (%s): third-party session %08x records %s = %v, its service reported %v", step, kind, id, p.n, p.got, p.exp)
+					}
+				}
+				continue
+			}
 			if !bytes.Equal(a.Encryption.AESKey, m.key) || !bytes.Equal(a.Encryption.AESIv, m.iv) {
 				return core.V("record|key-iv|after-"+kind, "step %d (%s): session %08x holds key/iv %x/%x, agent sent %x/%x", step, kind, id, a.Encryption.AESKey, a.Encryption.AESIv, m.key, m.iv)
 			}
@@ -207,7 +338,24 @@ func checkC(c CaseC) *core.Violation {
 				}
 			}
 		}
+		// operators are told about a new session exactly when one is created
+		pks, err := tap.Sync()
+		if err != nil {
+			panic("infrastructure: operator tap: " + err.Error())
+		}
+		for _, ev := range pks {
+			if ev.Head.Event == packager.Type.Session.Type && ev.Body.SubEvent == packager.Type.Session.NewSession {
+				told = append(told, fmt.Sprint(ev.Body.Info["NameID"]))
+			}
+		}
+		if strings.Join(told, ",") != strings.Join(created, ",") {
+			return core.V("notify|new-session-events|after-"+kind, "step %d (%s): operators were told about new sessions %v, sessions were created for %v", step, kind, told, created)
+		}
 		return nil
+	}
+	add := func(id uint32, m *modelC) {
+		model[id] = m
+		created = append(created, fmt.Sprintf("%08x", id))
 	}
 
 	for si, op := range c.Ops {
@@ -218,7 +366,11 @@ func checkC(c CaseC) *core.Violation {
 		switch op.Kind {
 		case "reg":
 			code, resp := w.PostFrom(op.Meta.ref(id).InitPackage(id, key, iv), remote)
-			if m, ok := model[id]; ok {
+			if m, ok := model[id]; ok && m.tp {
+				// COLLISION: a Demon's DEMON_INIT under the id of a third-party session.  The id is taken: no second
+				// session, no NewSession event, the third-party session keeps what its service reported (HEAD answers
+				// as for any DEMON_INIT under a known id; the reply is not judged)
+			} else if ok {
 				// a DEMON_INIT for an existing id is a reconnect: answered with the id under the EXISTING key, nothing changes
 				le := make([]byte, 4)
 				binary.LittleEndian.PutUint32(le, id)
@@ -234,7 +386,7 @@ func checkC(c CaseC) *core.Violation {
 				if !replyOK(resp, le, key, iv) {
 					return core.V("register|reply", "step %d: registration reply %x is not the agent id %08x (little-endian) under the session key", si, resp, id)
 				}
-				model[id] = &modelC{key: key, iv: iv, meta: op.Meta, ext: ext, haveExt: true}
+				add(id, &modelC{key: key, iv: iv, meta: op.Meta, ext: ext, haveExt: true})
 			}
 		case "rereg":
 			if len(model) == 0 {
@@ -243,17 +395,22 @@ func checkC(c CaseC) *core.Violation {
 			// reconnect with different metadata/key: must not alter the session
 			m := model[id]
 			code, resp := w.PostFrom(op.Meta.ref(id).InitPackage(id, key, iv), remote)
-			if m != nil {
+			if m != nil && m.tp {
+				// COLLISION, as in "reg": nothing may change
+			} else if m != nil {
 				le := make([]byte, 4)
 				binary.LittleEndian.PutUint32(le, id)
 				if code != 200 || !replyOK(resp, le, m.key, m.iv) {
 					return core.V("reconnect|reply", "step %d: reconnect of %08x answered %d / %x", si, id, code, resp)
 				}
 			} else if code == 200 {
-				model[id] = &modelC{key: key, iv: iv, meta: op.Meta, ext: ext, haveExt: true}
+				add(id, &modelC{key: key, iv: iv, meta: op.Meta, ext: ext, haveExt: true})
 			}
 		case "checkin":
-			if m := model[id]; m != nil {
+			if m := model[id]; m != nil && m.tp {
+				// COLLISION: a Demon (with a key of its own) checks in under the id of a third-party session: nothing may change
+				w.Checkin(agx.Sess{ID: id, Key: key, IV: iv}, nil)
+			} else if m != nil {
 				s := agx.Sess{ID: id, Key: m.key, IV: m.iv}
 				code, tasks, _, ok := w.Checkin(s, nil)
 				if code != 200 || !ok || len(tasks) == 0 {
@@ -264,6 +421,12 @@ func checkC(c CaseC) *core.Violation {
 			m := model[id]
 			if m == nil {
 				continue
+			}
+			if m.tp {
+				// COLLISION: a Demon batch with a CHECKIN callback (own id, own key, own metadata) under the id of a
+				// third-party session: the session keeps what its service reported and gets no key
+				w.Checkin(agx.Sess{ID: id, Key: key, IV: iv}, []demonref.Sub{{Cmd: demonref.CmdCheckin, ReqID: uint32(0x1000 + si), Body: op.Meta.ref(id).InitBody(key, iv, false)}})
+				break
 			}
 			s := agx.Sess{ID: id, Key: m.key, IV: m.iv}
 			// the operator asks for a checkin (gives the request id), the agent picks it up, then answers
@@ -314,6 +477,11 @@ func checkC(c CaseC) *core.Violation {
 			if m == nil {
 				continue
 			}
+			if m.tp {
+				// COLLISION: a Demon batch with an EXIT callback under the id of a third-party session
+				w.Checkin(agx.Sess{ID: id, Key: key, IV: iv}, []demonref.Sub{{Cmd: 92, ReqID: uint32(0x2000 + si), Body: (&demonref.Enc{}).Int32(1).B}})
+				break
+			}
 			s := agx.Sess{ID: id, Key: m.key, IV: m.iv}
 			req := uint32(0x2000 + si)
 			w.Input("op", map[string]interface{}{"DemonID": s.NameID(), "CommandID": "92", "TaskID": fmt.Sprintf("%08x", req), "CommandLine": "exit", "ExitMethod": "thread"})
@@ -351,7 +519,7 @@ func checkC(c CaseC) *core.Violation {
 			// the same id-mismatch a direct registration is refused for
 			parent := c.IDs[op.Other%len(c.IDs)]
 			pm := model[parent]
-			if pm == nil || parent == id || model[id] != nil {
+			if pm == nil || pm.tp || parent == id || model[id] != nil {
 				continue
 			}
 			inner := c.IDs[(op.Other+1)%len(c.IDs)]
@@ -373,9 +541,12 @@ func checkC(c CaseC) *core.Violation {
 			// registration of a new child through a parent's SMB_CONNECT callback
 			parent := c.IDs[op.Other%len(c.IDs)]
 			pm := model[parent]
-			if pm == nil || parent == id || model[id] != nil {
+			if pm == nil || pm.tp || parent == id || (model[id] != nil && !model[id].tp) {
 				continue
 			}
+			// COLLISION when the child's id is the id of a third-party session: the relayed DEMON_INIT must not create a
+			// second session under it (HEAD treats the package as the re-connect of the session it finds)
+			tpChild := model[id] != nil
 			ps := agx.Sess{ID: parent, Key: pm.key, IV: pm.iv}
 			child := op.Meta.ref(id).InitPackage(id, key, iv)
 			body := (&demonref.Enc{}).Int32(demonref.PivotSmbCon).Int32(1).Bytes(child).B // Command.c CommandPivot SMB_CONNECT: sub, success, child package
@@ -383,10 +554,54 @@ func checkC(c CaseC) *core.Violation {
 			if code != 200 {
 				return core.V("smb-register|status", "step %d: batch with an SMB_CONNECT callback answered %d", si, code)
 			}
-			if w.AgentsWithID(id) == 1 {
-				model[id] = &modelC{key: key, iv: iv, meta: op.Meta, haveExt: false}
+			if tpChild {
+				// the id is taken: no session may be created for it (the invariant compares table, records and events)
+			} else if w.AgentsWithID(id) == 1 {
+				add(id, &modelC{key: key, iv: iv, meta: op.Meta, haveExt: false})
 			} else {
 				return core.V("smb-register|no-session", "step %d: well-formed child registration %08x through parent %08x created %d sessions", si, id, parent, w.AgentsWithID(id))
+			}
+		case "tpreg":
+			// the service announces a third-party session (AgentRegister over the service websocket) under an id of the pool.
+			// Free id: the session exists afterwards and operators are told.  Id already held - by a Demon session (the
+			// OTHER direction of the collision) or by a third-party session: no two sessions share an id, so nothing changes
+			if sc == nil {
+				continue
+			}
+			ty := types[((op.TPType%len(types))+len(types))%len(types)]
+			sc.RegisterSession(ty, id, tpInfo(op.Meta))
+			if err := sc.Barrier(); err != nil {
+				panic("infrastructure: service script: " + err.Error())
+			}
+			if model[id] == nil {
+				add(id, &modelC{tp: true, magic: ty, meta: op.Meta})
+			}
+		case "tpreq":
+			// a third-party agent's request arrives at the listener under an id of the pool (registered magic): it is relayed to
+			// the service together with the session the teamserver holds under that id; the service script registers the sender
+			// when there is none (the way havoc-py handlers do) and answers.  Under the id of a Demon session the service is
+			// shown that session and only answers: nothing changes
+			if sc == nil {
+				continue
+			}
+			ty := types[((op.TPType%len(types))+len(types))%len(types)]
+			sc.OnUnknown(tpInfo(op.Meta))
+			n0 := sc.Relayed()
+			pl := []byte{op.KeySeed, 'r', 'e', 'q', byte(si), 0, 1, 2}
+			pk := make([]byte, 12, 20)
+			binary.BigEndian.PutUint32(pk[0:], uint32(8+len(pl)))
+			binary.BigEndian.PutUint32(pk[4:], ty)
+			binary.BigEndian.PutUint32(pk[8:], id)
+			pk = append(pk, pl...)
+			code, resp := w.PostFrom(pk, remote)
+			if err := sc.Barrier(); err != nil {
+				panic("infrastructure: service script: " + err.Error())
+			}
+			if code != 200 || sc.Relayed() != n0+1 || string(resp) != tpx.Tag+string(pl) {
+				return core.V("third-party|request|reply", "step %d: request of third-party agent %08x (registered magic %#x) answered %d / %q, relayed %d times; the service answered %q", si, id, ty, code, resp, sc.Relayed()-n0, tpx.Tag+string(pl))
+			}
+			if model[id] == nil {
+				add(id, &modelC{tp: true, magic: ty, meta: op.Meta})
 			}
 		}
 		if v := invariant(si, op.Kind); v != nil {
@@ -396,6 +611,86 @@ func checkC(c CaseC) *core.Violation {
 	return nil
 }
 
+// collisionsC replays the history on an abstract state (who holds which id: a Demon session or a
+// third-party session, by the rules the check itself applies) and names the collisions between the
+// two worlds the history contains.  Labels only; the verdicts come from checkC.
+func collisionsC(c CaseC) []string {
+	types := c.tpTypes()
+	if len(types) == 0 || len(c.IDs) == 0 {
+		return nil
+	}
+	var out []string
+	holder := map[uint32]string{} // "demon" | "tp"
+	for i, op := range c.Ops {
+		id := c.IDs[op.Slot%len(c.IDs)]
+		h := holder[id]
+		switch op.Kind {
+		case "reg", "rereg":
+			if op.Kind == "rereg" && len(holder) == 0 {
+				continue
+			}
+			if h == "tp" {
+				out = append(out, "collide:DEMON_INIT-under-id-of-third-party-session")
+			} else if h == "" {
+				holder[id] = "demon"
+			}
+		case "checkin", "cbcheckin", "exitcb":
+			if h == "tp" {
+				out = append(out, "collide:demon-batch("+op.Kind+")-under-id-of-third-party-session")
+			} else if h == "demon" && op.Kind == "cbcheckin" && !op.InnerOwn && holder[c.IDs[op.Other%len(c.IDs)]] == "tp" && c.IDs[op.Other%len(c.IDs)] != id {
+				out = append(out, "collide:CHECKIN-callback-names-id-of-third-party-session")
+			}
+		case "reg0":
+			if h == "tp" {
+				out = append(out, "collide:header-0-registration-names-id-of-third-party-session")
+			}
+		case "smbreg", "smbreg-mismatch":
+			parent := c.IDs[op.Other%len(c.IDs)]
+			if holder[parent] != "demon" || parent == id || h == "demon" {
+				continue
+			}
+			if op.Kind == "smbreg" {
+				if h == "tp" {
+					out = append(out, "collide:SMB_CONNECT-child-registration-under-id-of-third-party-session")
+				} else {
+					holder[id] = "demon"
+				}
+			} else if h == "" && holder[c.IDs[(op.Other+1)%len(c.IDs)]] == "tp" && c.IDs[(op.Other+1)%len(c.IDs)] != id {
+				out = append(out, "collide:relayed-child-registration-names-id-of-third-party-session")
+			}
+		case "markdead", "markalive":
+			if h == "tp" {
+				out = append(out, "tp:session-"+op.Kind)
+			}
+		case "tpreg":
+			switch h {
+			case "":
+				holder[id] = "tp"
+				if i < 2 {
+					out = append(out, "tp:session-announced-before-any-demon")
+				} else {
+					out = append(out, "tp:session-announced(AgentRegister)")
+				}
+			case "demon":
+				out = append(out, "collide:AgentRegister-under-id-of-demon-session")
+			case "tp":
+				out = append(out, "collide:AgentRegister-under-id-of-third-party-session")
+			}
+		case "tpreq":
+			switch h {
+			case "":
+				holder[id] = "tp"
+				out = append(out, "tp:request-of-unknown-agent-registers-it")
+			case "demon":
+				out = append(out, "collide:third-party-request-under-id-of-demon-session")
+			case "tp":
+				out = append(out, "tp:request-of-known-third-party-session")
+			}
+		}
+	}
+	return out
+}
+
 func classifyC(c CaseC) core.Class {
 	var cl core.Class
 	ks := map[string]bool{}
@@ -403,20 +698,43 @@ func classifyC(c CaseC) core.Class {
 		ks[op.Kind] = true
 		cl.Labels = append(cl.Labels, "op:"+op.Kind)
 	}
-	cl.NonTrivial = ks["rereg"] || ks["cbcheckin"] || ks["reg0"] || ks["smbreg"] || ks["smbreg-mismatch"] || ks["markdead"] || ks["exitcb"]
+	coll := map[string]bool{}
+	if c.Svc != nil {
+		cl.Labels = append(cl.Labels, fmt.Sprintf("svc:live-service-with-%d-types", len(c.tpTypes())))
+		for _, l := range collisionsC(c) {
+			cl.Labels = append(cl.Labels, l)
+			if strings.HasPrefix(l, "collide:") {
+				coll[l] = true
+			}
+		}
+	} else {
+		cl.Labels = append(cl.Labels, "svc:none")
+	}
+	cl.NonTrivial = ks["rereg"] || ks["cbcheckin"] || ks["reg0"] || ks["smbreg"] || ks["smbreg-mismatch"] || ks["markdead"] || ks["exitcb"] || len(coll) > 0
 	var names []string
 	for k := range ks {
 		names = append(names, k)
 	}
 	sort.Strings(names)
 	cl.Fingerprint = strings.Join(names, "+") + fmt.Sprintf("|n=%d", len(c.Ops)/4)
+	if c.Svc != nil {
+		nc := len(coll)
+		if nc > 2 {
+			nc = 2
+		}
+		cl.Fingerprint += fmt.Sprintf("|svc|collisions=%d", nc)
+	}
 	return cl
 }
 
 func TestC03c(t *testing.T) {
 	core.Run(t, core.Spec[CaseC]{
 		Property: "C03", Sub: "c",
-		Rule: "histories of 1-14 operations over 2-4 agent ids (incl. >=2^31) on the real Teamserver + sqlite + HTTP listener engine: registration, DEMON_INIT for an existing id (alive, marked dead, exited), check-in, operator mark dead/alive, exit callback, COMMAND_CHECKIN callback naming the sender or another id (same or new key), registration with header id 0, truncated registration, a relayed child registration whose encrypted part names another id than its header, registration of a child through SMB_CONNECT; after every step the session table is compared with a model (ids exactly the registered ones and pairwise distinct, key/IV/metadata as sent, registration reply = id under the session key). Non-trivial: history with a re-registration, CHECKIN callback, header-0 registration or SMB registration; distinct = (set of op kinds, length bucket)",
+		Rule: "histories of 1-14 operations over 2-4 agent ids (incl. >=2^31) on the real Teamserver + sqlite + HTTP listener engine: registration, DEMON_INIT for an existing id (alive, marked dead, exited), check-in, operator mark dead/alive, exit callback, COMMAND_CHECKIN callback naming the sender or another id (same or new key), registration with header id 0, truncated registration, a relayed child registration whose encrypted part names another id than its header, registration of a child through SMB_CONNECT; after every step the session table is compared with a model (ids exactly the registered ones and pairwise distinct, key/IV/metadata as sent, registration reply = id under the session key). Non-trivial: history with a re-registration, CHECKIN callback, header-0 registration or SMB registration; distinct = (set of op kinds, length bucket). Added: every history has one operator on a real websocket and the ids of the NewSession events it received must be exactly the ids sessions were created for, in order (told exactly when a session is created). A third of the histories run in a teamserver with a Service block: a live service client on the real service websocket registered 1-2 third-party agent types (canonical magic strings) and announces 0-2 third-party sessions (AgentRegister) before the first Demon operation, under ids of the SAME 2-4 id pool; further operations: tpreg (the service announces a third-party session under a pool id - free, held by a Demon session, held by a third-party session) and tpreq (a third-party agent's request with the registered magic under a pool id through the listener: relayed once, answered with the service's bytes; the service script registers the sender when the teamserver shows it no session, as havoc-py handlers do). Collisions (labels collide:*): DEMON_INIT / re-registration, check-in, CHECKIN-callback batch and EXIT-callback batch of a Demon with its own key under the id of a third-party session, SMB_CONNECT child registration under such an id, CHECKIN callback / header-0 registration / relayed child registration naming such an id, operator mark dead/alive of a third-party session; AgentRegister and third-party requests under the id of a Demon session. Oracle for them (HEAD's handleDemonAgent / SMB_CONNECT / handleServiceAgent behaviour, which is what the property demands): an id that is held is never given a second session, no NewSession event without a new session, the third-party session keeps exactly what its service reported (magic, host, user, domain, ip, process path/name/pid/ppid, sleep) and never gets a Demon key/IV, Demon sessions keep theirs; a refused registration changes nothing (replies to Demon traffic under a third-party id are not judged). Non-trivial also: a history with a collision; distinct gets (service, #collision kinds capped at 2)",
 		Gen:   genC, Check: checkC, Classify: classifyC,
+		Assumptions: []string{
+			"the service stays connected for the whole history and answers every relayed request (disconnecting services are C01(d)'s subject)",
+			"collide:* labels are computed on an abstract replay of the history (a history that ends early in a violation would have its later labels counted but not exercised)",
+		},
 	})
 }
